@@ -15,7 +15,7 @@ class SV:
     oid   : identity token for `is` on objects (None = unknown identity)
     fresh : True when the object was created on this path (constructor / contract result)
     """
-    __slots__ = ('term', 'ty', 'oid', 'fresh', 'opaque')
+    __slots__ = ('term', 'ty', 'oid', 'fresh', 'opaque', 'meta')
 
     def __init__(self, term, ty: Ty, oid=None, fresh=False, opaque=False):
         self.term = term
@@ -23,6 +23,7 @@ class SV:
         self.oid = oid
         self.fresh = fresh
         self.opaque = opaque
+        self.meta = None
 
     def __repr__(self):
         s = str(self.term).replace('\n', ' ')
